@@ -368,6 +368,14 @@ def corpus():
          {'k': 'conv1d', 'src': 3, 'cin': 4, 'cout': 3, 'ks': 1, 'dil': 1, 'stride': 1, 'groups': 1, 'bias': True},
          {'k': 'flatten', 'src': 4, 'start': 1, 'form': 'fn'}, {'k': 'linear', 'src': 5, 'cin': 15, 'cout': 2, 'bias': True}]
     out.append(('squeeze-spatial', {'dim': 2, 'nodes': n}))
+    # axes counted from the end: channel cat written dim=-3, flatten(start_dim=-3), time-axis cat written dim=-1
+    n = [I, _c2(0, 3, 2), _c2(0, 3, 3), {'k': 'cat', 'src': [1, 2], 'dim': 1, 'sdim': -3, 'kw': True}, _c2(3, 5, 3), {'k': 'gap2d', 'src': 4},
+         {'k': 'flatten', 'src': 5, 'start': 1, 'sstart': -3, 'form': 'fn', 'kw': False}, {'k': 'linear', 'src': 6, 'cin': 3, 'cout': 2, 'bias': True}]
+    out.append(('negative-axis-channel-cat', {'dim': 2, 'nodes': n}))
+    c1 = lambda src, cin, cout: {'k': 'conv1d', 'src': src, 'cin': cin, 'cout': cout, 'ks': 1, 'dil': 1, 'stride': 1, 'groups': 1, 'bias': True}
+    n = [{'k': 'in', 'shape': [2, 6]}, c1(0, 2, 3), {'k': 'relu', 'src': 1}, c1(2, 3, 3), c1(2, 3, 3), {'k': 'cat', 'src': [3, 4], 'dim': 2, 'sdim': -1, 'kw': True},
+         c1(5, 3, 2), {'k': 'gap1d', 'src': 6}, {'k': 'flatten', 'src': 7, 'start': 1, 'form': 'fn'}, {'k': 'linear', 'src': 8, 'cin': 2, 'cout': 2, 'bias': True}]
+    out.append(('negative-axis-time-cat', {'dim': 1, 'nodes': n}))
     for _, s in out:
         s['out'] = [len(s['nodes']) - 1]
     return out
@@ -393,9 +401,13 @@ def classes_of(spec):
     iscat = lambda j: nodes[j]['k'] == 'cat' and nodes[j]['dim'] == 1
     fixed_w = lambda j: nodes[j]['k'] == 'in' or (nodes[j]['k'] in LAYER and not is_dw(nodes[j]) and CG.excluded(spec, j)) or (nodes[j]['k'] in LAYER and not is_dw(nodes[j]) and not spec.get('autoconvert', True) and nodes[j].get('pit') is None)
     for i, nd in enumerate(nodes):
+        d = nd.get('sdim') if nd['k'] == 'cat' else nd.get('sstart') if nd['k'] == 'flatten' else nd.get('dim') if nd['k'] in ('squeeze', 'unsqueeze') else None
+        if d is not None and d < 0 and not (nd['k'] == 'squeeze' and d == -1) and not (nd['k'] == 'unsqueeze' and d == -1):
+            out.append('axis-from-the-end:' + ('time-cat' if nd['k'] == 'cat' and nd['dim'] == 2 else 'features-cat' if nd['k'] == 'cat' else nd['k']))
+    for i, nd in enumerate(nodes):
         if nd['k'] == 'squeeze':
             rank = len(sh[nd['src']]) + 1
-            if rank == 4 and nd['dim'] == 3 and sh[nd['src']][1] > 1:
+            if rank == 4 and nd['dim'] in (3, -1) and sh[nd['src']][1] > 1:
                 out.append('squeeze-trailing-axis-of-4d')
         if iscat(i) and len(set(nd['src'])) < len(nd['src']):
             out.append('cat-repeats-a-tensor')
@@ -486,7 +498,7 @@ def judge(spec, ob):
     return bad
 
 
-PRIORITY = ['squeeze-trailing-axis-of-4d', 'cat-repeats-a-tensor', 'depthwise-after-cat', 'add-with-cat-operand', 'cat-of-two-fixed-width-tensors',
+PRIORITY = ['axis-from-the-end:time-cat', 'axis-from-the-end:features-cat', 'axis-from-the-end:flatten', 'axis-from-the-end:squeeze', 'axis-from-the-end:unsqueeze', 'squeeze-trailing-axis-of-4d', 'cat-repeats-a-tensor', 'depthwise-after-cat', 'add-with-cat-operand', 'cat-of-two-fixed-width-tensors',
             'cat-of-two-flattened-tensors', 'excluded-layer-next-to-searchable']
 
 
@@ -529,12 +541,14 @@ def to_ir(spec):
         elif k == 'squeeze':
             rank = len(sh[nd['src']]) + 1
             fn = nd.get('form') != 'method'
-            if nd['dim'] == 1 or rank - nd['dim'] == 1:
-                ir.append('NFlat %d %d %s' % (nd['src'], sh[nd['src']][1] if nd['dim'] == 1 else SQUEEZE_MULT(sh[nd['src']]), 'FSqF' if fn else 'FSqM'))
+            a = nd['dim'] if nd['dim'] >= 0 else rank + nd['dim']       # the IR node depends on the NORMALISED axis only
+            if a == 1 or rank - a == 1:
+                ir.append('NFlat %d %d %s' % (nd['src'], sh[nd['src']][1] if a == 1 else SQUEEZE_MULT(sh[nd['src']]), 'FSqF' if fn else 'FSqM'))
             else:
                 ir.append('NProp %d %s' % (nd['src'], 'TSqF' if fn else 'TSqM'))
         elif k == 'unsqueeze':
-            assert nd['dim'] not in (0, 1)
+            rank = len(sh[nd['src']]) + 1
+            assert (nd['dim'] if nd['dim'] >= 0 else rank + 1 + nd['dim']) not in (0, 1)
             ir.append('NProp %d TUnsq' % nd['src'])
         elif k in ('add', 'sub'):
             ir.append('NJoin %d %d false' % tuple(nd['src']))
